@@ -7,6 +7,7 @@ import TantivyModel.Proofs.Store.Channel
 import TantivyModel.Model.Store.Version
 import TantivyModel.Proofs.Store.VInt32
 import TantivyModel.Model.Store.JsonNumber
+import TantivyModel.Proofs.Store.DocPath
 /-!
 # C09 — Stored documents are returned exactly as they were added
 
@@ -116,6 +117,32 @@ theorem C09_json_number_injective (a b : Int)
   constructor
   · split at h <;> split at h <;> simp at h <;> first | exact h | omega
   · split <;> simp
+
+/-! ### `TantivyDocument` (CompactDoc): values, address tables, and the whole path of a value -/
+
+/-- A value of any shape (every leaf type, arrays and objects with their address tables, any nesting)
+added to a `CompactDoc` — after whatever `node` already holds, before whatever is added later
+(`ext`) — is read back exactly by `get_ref_value` and the array / object iterators. Bounded only by
+the `u32` addresses (`node_data` below 4 GiB). -/
+theorem C09_compact_doc_value_roundtrip (v : StoredValue) (node ext : Bytes) (fuel : Nat)
+    (hf : depthV v ≤ fuel) (hb : (cdAdd node v).1.length < 4294967296) :
+    cdRead fuel ((cdAdd node v).1 ++ ext) (cdAdd node v).2 = some v :=
+  cdRead_add v node ext fuel hf hb
+
+/-- The whole path of one value: what the user adds (`v`, in-memory reading) is what the document
+returns before it is stored; `serialize_value` writes `memToDisk v`; the store codec returns exactly
+those bytes' value; `deserialize` turns it back into `v` (floats: `u64_to_f64 ∘ f64_to_u64 = id`,
+both extracted); and the rebuilt `TantivyDocument` returns `v` again. -/
+theorem C09_document_value_path (v : StoredValue) (fuel : Nat) (hf : depthV v ≤ fuel)
+    (hb : (cdAdd [] v).1.length < 4294967296) (rest : Bytes) :
+    cdRead fuel (cdAdd [] v).1 (cdAdd [] v).2 = some v ∧
+    (decodeValue (encValue (memToDisk v) ++ rest)).map (fun r => diskToMem r.1) = some v ∧
+    cdRead fuel (cdAdd [] (diskToMem (memToDisk v))).1 (cdAdd [] (diskToMem (memToDisk v))).2 = some v := by
+  have h1 := cdRead_add v [] [] fuel hf hb
+  simp only [List.append_nil] at h1
+  refine ⟨h1, ?_, ?_⟩
+  · rw [decodeValue_enc]; simp [diskToMem_memToDisk]
+  · rw [diskToMem_memToDisk]; exact h1
 
 /-! ### skip index -/
 
@@ -290,6 +317,25 @@ theorem C09_merge_store (C : Compression) (hC : GoodCompression C) (K P minBlock
   have hh : Holds C P merged live := ⟨groups, _, hd, hl, hg, rfl⟩
   exact ⟨hh, fun hne i => holds_get C hC.roundtrip P hP merged live hne hh i⟩
 
+/-- The stacking decision itself (the three clauses and the comparison operator of the codec clause
+are extracted from `write_storable_fields`): raw blocks are stacked only if the source has no
+deletes, has at least `minBlocks` blocks, and its decompressor is the writer's compressor. Hence a
+block written with one codec is never copied verbatim into a store read with another, for every
+pair of codecs (`C09_merge_store` needs nothing else about them). -/
+theorem C09_stack_only_same_codec (C : Compression) (minBlocks : Nat) (s : SourceSegment)
+    (h : mustCopy C minBlocks s = false) :
+    s.hasDeletes = false ∧ minBlocks ≤ ((checkpointsOf s.store.index).take (minBlocks + 1)).length ∧
+      s.store.decompId = C.id :=
+  mustCopy_false C minBlocks s h
+
+/-- and conversely a source with another decompressor id is always copied document by document
+(decompressed with its own codec, recompressed with the writer's) -/
+theorem C09_other_codec_is_copied (C : Compression) (minBlocks : Nat) (s : SourceSegment)
+    (h : s.store.decompId ≠ C.id) : mustCopy C minBlocks s = true := by
+  cases hm : mustCopy C minBlocks s with
+  | true => rfl
+  | false => exact absurd (mustCopy_false C minBlocks s hm).2.2 h
+
 /-- The third path of `write_storable_fields` (non-trivial doc-id mapping, i.e. a sorted index):
 taking, for each entry of the mapping, the next live document of the named segment writes a store
 that holds exactly the picked documents in mapping (= new doc id) order. `its` are the segments'
@@ -428,5 +474,19 @@ example : readU32Vint ([0, 0, 0, 129, 7] : Bytes) = some (2097152, 4) := by deci
 example : jsonNumber 9223372036854775808 = some (.uint64 9223372036854775808) := by decide
 example : jsonNumber (-1) = some (.int64 (-1)) := by decide
 example : jsonNumberWith [0, 2, 1] 18446744073709551615 = some .float := by decide
+
+/-- a source written with another codec (id 1) than the writer's (id 0): copied, not stacked -/
+example : mustCopy Compression.none 6
+    { store := { (writtenStore Compression.none 8 8 100 [[1]]) with decompId := 1 }, codec := Compression.none,
+      alive := fun _ => true, hasDeletes := false } = true :=
+  C09_other_codec_is_copied _ _ _ (by decide)
+
+/-- an object holding an array, a float and a nested empty object, added after 3 unrelated bytes -/
+def exampleNested : StoredValue :=
+  .object [([107], .array [.null, .str [97], .f64 5, .bool true]), ([], .object []), ([120], .ip 7)]
+
+example : depthV exampleNested ≤ 3 ∧ (cdAdd [9, 9, 9] exampleNested).1.length < 4294967296 := by decide +kernel
+example : cdRead 3 ((cdAdd [9, 9, 9] exampleNested).1 ++ [1, 2]) (cdAdd [9, 9, 9] exampleNested).2
+    = some exampleNested := C09_compact_doc_value_roundtrip _ _ _ _ (by decide +kernel) (by decide +kernel)
 
 end TantivyModel.C09
